@@ -6,6 +6,8 @@
 name: str_prepend_char.empty
 define: VP=str, VSTR_OWN_MEMMOVE, U_PREPEND_CHAR, U_EMPTY
 src: str.c, obj.c
+native: str
+native_includes: str.c
 enforce: spif_str_prepend_char
 backend: sat,z3
 timeout: 200
@@ -15,6 +17,8 @@ flags: --slice-formula
 name: str_prepend_char.slack
 define: VP=str, VSTR_OWN_MEMMOVE, U_PREPEND_CHAR, U_NONEMPTY, U_SLACK
 src: str.c, obj.c
+native: str
+native_includes: str.c
 enforce: spif_str_prepend_char
 backend: sat,z3
 timeout: 200
@@ -24,6 +28,8 @@ flags: --slice-formula
 name: str_prepend_char.slack.hibit
 define: VP=str, VSTR_OWN_MEMMOVE, U_PREPEND_CHAR, U_NONEMPTY, U_SLACK, U_HIBIT
 src: str.c, obj.c
+native: str
+native_includes: str.c
 enforce: spif_str_prepend_char
 backend: sat,z3
 timeout: 200
@@ -34,6 +40,8 @@ checks_off: --conversion-check
 name: str_prepend_char.tight
 define: VP=str, VSTR_OWN_MEMMOVE, U_PREPEND_CHAR, U_NONEMPTY, U_TIGHT
 src: str.c, obj.c
+native: str
+native_includes: str.c
 enforce: spif_str_prepend_char
 backend: sat,z3
 timeout: 200
@@ -43,6 +51,8 @@ flags: --slice-formula
 name: str_prepend_from_ptr.empty
 define: VP=str, VSTR_OWN_MEMMOVE, U_PREPEND_FROM_PTR, U_EMPTY
 src: str.c, obj.c
+native: str
+native_includes: str.c
 enforce: spif_str_prepend_from_ptr
 backend: sat,z3
 timeout: 200
@@ -52,6 +62,8 @@ flags: --slice-formula
 name: str_prepend_from_ptr.nonempty
 define: VP=str, VSTR_OWN_MEMMOVE, U_PREPEND_FROM_PTR, U_NONEMPTY
 src: str.c, obj.c
+native: str
+native_includes: str.c
 enforce: spif_str_prepend_from_ptr
 backend: sat,z3
 timeout: 200
@@ -61,6 +73,8 @@ flags: --slice-formula
 name: str_prepend.empty
 define: VP=str, VSTR_OWN_MEMMOVE, U_PREPEND, U_EMPTY
 src: str.c, obj.c
+native: str
+native_includes: str.c
 enforce: spif_str_prepend
 backend: sat,z3
 timeout: 200
@@ -70,6 +84,8 @@ flags: --slice-formula
 name: str_prepend.nonempty
 define: VP=str, VSTR_OWN_MEMMOVE, U_PREPEND, U_NONEMPTY
 src: str.c, obj.c
+native: str
+native_includes: str.c
 enforce: spif_str_prepend
 backend: sat,z3
 timeout: 200
@@ -79,6 +95,8 @@ flags: --slice-formula
 name: ustr_prepend_char.empty
 define: VP=ustr, VSTR_OWN_MEMMOVE, U_PREPEND_CHAR, U_EMPTY
 src: ustr.c, obj.c
+native: str
+native_includes: ustr.c
 enforce: spif_ustr_prepend_char
 backend: sat,z3
 timeout: 200
@@ -88,6 +106,8 @@ flags: --slice-formula
 name: ustr_prepend_char.slack
 define: VP=ustr, VSTR_OWN_MEMMOVE, U_PREPEND_CHAR, U_NONEMPTY, U_SLACK
 src: ustr.c, obj.c
+native: str
+native_includes: ustr.c
 enforce: spif_ustr_prepend_char
 backend: sat,z3
 timeout: 200
@@ -97,6 +117,8 @@ flags: --slice-formula
 name: ustr_prepend_char.slack.hibit
 define: VP=ustr, VSTR_OWN_MEMMOVE, U_PREPEND_CHAR, U_NONEMPTY, U_SLACK, U_HIBIT
 src: ustr.c, obj.c
+native: str
+native_includes: ustr.c
 enforce: spif_ustr_prepend_char
 backend: sat,z3
 timeout: 200
@@ -107,6 +129,8 @@ checks_off: --conversion-check
 name: ustr_prepend_char.tight
 define: VP=ustr, VSTR_OWN_MEMMOVE, U_PREPEND_CHAR, U_NONEMPTY, U_TIGHT
 src: ustr.c, obj.c
+native: str
+native_includes: ustr.c
 enforce: spif_ustr_prepend_char
 backend: sat,z3
 timeout: 200
@@ -116,6 +140,8 @@ flags: --slice-formula
 name: ustr_prepend_from_ptr.empty
 define: VP=ustr, VSTR_OWN_MEMMOVE, U_PREPEND_FROM_PTR, U_EMPTY
 src: ustr.c, obj.c
+native: str
+native_includes: ustr.c
 enforce: spif_ustr_prepend_from_ptr
 backend: sat,z3
 timeout: 200
@@ -125,6 +151,8 @@ flags: --slice-formula
 name: ustr_prepend_from_ptr.nonempty
 define: VP=ustr, VSTR_OWN_MEMMOVE, U_PREPEND_FROM_PTR, U_NONEMPTY
 src: ustr.c, obj.c
+native: str
+native_includes: ustr.c
 enforce: spif_ustr_prepend_from_ptr
 backend: sat,z3
 timeout: 200
@@ -134,6 +162,8 @@ flags: --slice-formula
 name: ustr_prepend.empty
 define: VP=ustr, VSTR_OWN_MEMMOVE, U_PREPEND, U_EMPTY
 src: ustr.c, obj.c
+native: str
+native_includes: ustr.c
 enforce: spif_ustr_prepend
 backend: sat,z3
 timeout: 200
@@ -143,6 +173,8 @@ flags: --slice-formula
 name: ustr_prepend.nonempty
 define: VP=ustr, VSTR_OWN_MEMMOVE, U_PREPEND, U_NONEMPTY
 src: ustr.c, obj.c
+native: str
+native_includes: ustr.c
 enforce: spif_ustr_prepend
 backend: sat,z3
 timeout: 200
